@@ -59,6 +59,9 @@ func runHistmon(cfg *RunCfg, rep *Reporter, cov *Cov) {
 		runOneHistory(cfg, rep, cov, i, sz.steps)
 	})
 	cov.Add("histories", int64(n))
+	if prop == "C20" {
+		runC20Concurrent(cfg, rep, cov)
+	}
 }
 
 func runOneHistory(cfg *RunCfg, rep *Reporter, cov *Cov, idx, steps int) {
